@@ -74,6 +74,14 @@ struct Sys {
     shape: String,
 }
 
+/// Is visible call `b` of this run the call `a` of the recorded run? The length of a write of a
+/// serialised configuration differs by a byte or two between runs (ids and timestamps are printed
+/// without leading zeros), so write lengths are not compared.
+fn same_call(a: &str, b: &str) -> bool {
+    let coarse = |x: &str| if x.starts_with("write(fd, len") { "write(fd, len N)".to_string() } else { x.to_string() };
+    coarse(a) == coarse(b)
+}
+
 fn read_cstr(pid: i32, addr: u64) -> String {
     let mut out = Vec::new();
     let mut a = addr;
@@ -480,7 +488,7 @@ fn run_point(s: &Scenario, k: Option<usize>, expect_shape: Option<&str>, prop: &
                     res.phase = PHASES.get(victim.phase).unwrap_or(&"?").to_string();
                     res.ordinal = victim.log.iter().filter(|x| x.shape == sys.shape).count();
                     if let Some(e) = expect_shape {
-                        if e != sys.shape {
+                        if !same_call(e, &sys.shape) {
                             victim.kill();
                             let _ = sv.cmd("QUIT", Duration::from_secs(5));
                             sv.finish();
@@ -653,7 +661,7 @@ fn cleaner_point(s: &Scenario, k: Option<usize>, kill_a: bool, expect_shape: Opt
                     res.shape = sys.shape.clone();
                     res.ordinal = a.log.iter().filter(|x| x.shape == sys.shape).count();
                     if let Some(e) = expect_shape {
-                        if e != sys.shape {
+                        if !same_call(e, &sys.shape) {
                             a.kill();
                             remove_domain(&d);
                             return Err(format!("divergence: cleaner call {i} is {:?}, recorded run had {:?}", sys.shape, e));
@@ -947,8 +955,7 @@ fn race_point(s: &Scenario, k: Option<usize>, expect_shape: Option<&str>) -> Res
                     paused_in_creation = first.phase == 1;
                     if let Some(e) = expect_shape {
                         // the length of the serialised static config varies by a byte between runs
-                        let coarse = |x: &str| if x.starts_with("write(fd, len") { "write(fd, len N)".to_string() } else { x.to_string() };
-                        if coarse(e) != coarse(&sys.shape) {
+                        if !same_call(e, &sys.shape) {
                             first.kill();
                             let _ = peer.cmd("QUIT", Duration::from_secs(5));
                             peer.finish();
